@@ -67,8 +67,13 @@ Judge(e) ==
                            \* MarshalJSON, the Decompose family the TimeFormat number, {} under NestEmbed, or (pruned) nothing
                            timeField == /\ Own(df.key).fk = <<"time", "-">> /\ x.t = "obj" /\ y.t = "obj" /\ IsDec(g)
                                         /\ df.key \in KeysOf(y) /\ CountK(y, df.key) = 1 /\ ValOf(y, df.key).t = "str"
-                                        /\ (df.key \notin KeysOf(x) \/ (CountK(x, df.key) = 1 /\ ValOf(x, df.key).t \in {"num", "obj"})) IN
-                       <<[i |-> c, kind |-> "disagrees", as |-> g.as, w |-> IF timeField THEN "as-implemented:time-field" ELSE df.w,
+                                        /\ (df.key \notin KeysOf(x) \/ (CountK(x, df.key) = 1 /\ ValOf(x, df.key).t \in {"num", "obj"}))
+                           \* a nil / `,string`-tagged NAMED byte slice (Reference silent): Decompose family writes an array, the writers a string
+                           bytesArr == /\ Own(df.key).fk = <<"bytes", "-">> /\ x.t = "obj" /\ y.t = "obj" /\ IsDec(g)
+                                       /\ (df.key \notin KeysOf(y) \/ (CountK(y, df.key) = 1 /\ ValOf(y, df.key).t = "str"))
+                                       /\ (df.key \notin KeysOf(x) \/ (CountK(x, df.key) = 1 /\ ValOf(x, df.key).t = "arr")) IN
+                       <<[i |-> c, kind |-> "disagrees", as |-> g.as,
+                          w |-> IF timeField THEN "as-implemented:time-field" ELSE IF bytesArr THEN "as-implemented:bytes-as-array" ELSE df.w,
                           d |-> Own(df.key), o |-> OptStr(e.o), m |-> ref.as[1]]>>
       GoC(g) == IF g.r # "ok" \/ (HasMarshaler(e.tv) /\ IsDec(g)) \/ ~e.gocompat \/ e.gj.r # "ok" \/ ~BothSupport(e.tv) \/ ~Match(pat, g.tree) \/ NilEq(g.tree, e.gj.tree) THEN <<>>
                 ELSE LET df == TreeDiff(g.tree, e.gj.tree) IN
